@@ -5,6 +5,9 @@
   `uidpid <pid>`                                 → hex of the first id of a fresh process
   `rand <hex scss> <n> <term>`                   → asis \t spec, each `unit` | `int:<bound>` | `err:<kind>`
         term = null | nonnum | nan | inf | num:<numerator>:<denominator>
+  `randseed <state> <hex scss> <bound> <term>`   → as `rand` (the class of the answer)
+  `randdraw <term> <a> <b> <i>`                  → `unit:a/b` | `int:<v>` | `err`: `random` of the model fed
+        the unit draw a/b and the integer draw i that the real generator made in the seeded state
 -/
 import RsassModel.Basic.Proto
 import RsassModel.Glue.Uid
@@ -75,6 +78,22 @@ def handleC06 (quirks : List String) (op : String) (args : List String) : String
       let q : RandQuirks := { intTolF32Eps := quirks.contains "intTolF32Eps" }
       showRand q l ++ "\t" ++ showRand randSpec l
     | none => "bad-args"
+  | "randseed", [_state, _src, _bound, term] =>
+    match parseLimit term with
+    | some l =>
+      let q : RandQuirks := { intTolF32Eps := quirks.contains "intTolF32Eps" }
+      showRand q l ++ "\t" ++ showRand randSpec l
+    | none => "bad-args"
+  | "randdraw", [term, a, b, i] =>
+    -- the model fed the draws the generator made: unit draw a/b, integer draw i
+    match parseLimit term, a.toNat?, b.toNat?, i.toInt? with
+    | some l, some a, some b, some i =>
+      let q : RandQuirks := { intTolF32Eps := quirks.contains "intTolF32Eps" }
+      match random q (a, b) (fun _ => i) l with
+      | .ok (.unit a b) => "unit:" ++ toString a ++ "/" ++ toString b
+      | .ok (.int v) => "int:" ++ toString v
+      | .error _ => "err"
+    | _, _, _, _ => "bad-args"
   | _, _ => "bad-op"
 
 def main : IO Unit := Proto.run handleC06
